@@ -14,6 +14,10 @@ type GenOpts struct {
 	Trims      bool // wrap some sub-expressions in text.LeftTrim / text.RightTrim (no reference semantics: C02/C07 only)
 	RTrimSeqs  bool // with Trims and LeftTrims: RightTrim too, but only around sequence-like operands (they build a fresh node: K1 cannot reach a shared one)
 	LeftTrims  bool // with Trims: LeftTrim only (RightTrim moves its operand's end in place: known finding K1)
+	// RTrimFresh: with Trims and LeftTrims: also RightTrim in the never-failing mode WsSpacesNl around operands WITHOUT
+	// nonterminal references (every node they return is fresh, K1 cannot reach a shared one). Such grammars have a
+	// reference meaning: each result's end moves over the whitespace that follows it.
+	RTrimFresh bool
 	Ends       bool // allow parser.End() as a leaf (sequences that end at the end of the input)
 	Ops        []Op // operator pool (nil: all)
 }
@@ -85,6 +89,17 @@ func (gn *generator) gen(depth int, c genCtx) *Expr {
 		}
 		w := gn.g.Mk(op, e)
 		w.C = byte(gn.r.Intn(4))
+		if gn.o.RTrimFresh && gn.r.Intn(2) == 0 {
+			ntFree := true
+			Walk(e, func(x *Expr) {
+				if x.Op == OpNT {
+					ntFree = false
+				}
+			})
+			if ntFree {
+				w.Op, w.C = OpRTrim, 2
+			}
+		}
 		return w
 	}
 	return e
@@ -251,6 +266,63 @@ func MutualLR(r *rand.Rand) *Grammar {
 		}
 		if i == 0 || r.Intn(2) == 0 {
 			alts = append(alts, rn())
+		}
+		g.NTs[i] = g.Mk(OpAny, alts...)
+	}
+	return g
+}
+
+// HiddenLR generates grammars whose recursion is hidden behind a NULLABLE PREFIX with every layout of its result list:
+// zero-width alternative first (Any(ε, x)), last (Optional, Any(x, ε)), in the middle, several zero-width entries,
+// repetitions that may match nothing, two nullable elements in a row. The recursive call follows the prefix directly;
+// a suffix may be absent, which makes the grammar cyclic (P => P): then only end positions are claimed.
+func HiddenLR(r *rand.Rand) *Grammar {
+	n := 1 + r.Intn(2)
+	g := New("abx", n)
+	rn := func() *Expr { return g.Rune(g.Alpha[r.Intn(len(g.Alpha))]) }
+	nullable := func() *Expr {
+		switch r.Intn(9) {
+		case 0:
+			return g.Mk(OpOpt, rn())
+		case 1:
+			return g.Mk(OpAny, g.Mk(OpEmpty), rn())
+		case 2:
+			return g.Mk(OpAny, rn(), g.Mk(OpEmpty))
+		case 3:
+			return g.Mk(OpMany, rn())
+		case 4:
+			return g.Mk(OpAny, g.Mk(OpEmpty), rn(), g.Mk(OpSeqOf, rn(), rn()))
+		case 5:
+			return g.Mk(OpSeqOf, g.Mk(OpOpt, rn()), g.Mk(OpOpt, rn()))
+		case 6:
+			return g.Mk(OpAny, rn(), g.Mk(OpEmpty), rn())
+		case 7:
+			return g.Mk(OpAny, g.Mk(OpEmpty), g.Mk(OpOpt, rn()))
+		default:
+			return g.Mk(OpAny, g.Mk(OpSeqOf), rn()) // the empty sequence is a zero-width result that is not an EmptyNode
+		}
+	}
+	for i := 0; i < n; i++ {
+		var alts []*Expr
+		for k, m := 0, 1+r.Intn(2); k < m; k++ {
+			kids := []*Expr{nullable(), g.Ref(r.Intn(n))}
+			switch r.Intn(4) {
+			case 0: // no suffix: a cyclic rule
+			case 1:
+				kids = append(kids, nullable())
+			default:
+				kids = append(kids, rn())
+			}
+			alts = append(alts, g.Mk(OpSeqOf, kids...))
+		}
+		base := rn()
+		if r.Intn(4) == 0 {
+			base = g.Mk(OpEmpty)
+		}
+		if r.Intn(2) == 0 {
+			alts = append(alts, base)
+		} else {
+			alts = append([]*Expr{base}, alts...)
 		}
 		g.NTs[i] = g.Mk(OpAny, alts...)
 	}
